@@ -44,6 +44,7 @@ type demoSpec struct {
 	File string `json:"file"` // test file relative to /verif, overlaid into the package directory
 	Test string `json:"test"` // test function
 	Race bool   `json:"race,omitempty"` // run under the race detector; a reported race counts as reproduction
+	Pkg  string `json:"pkg,omitempty"`  // package the demo belongs to when it is not the job's package
 }
 
 type checkSpec struct {
@@ -283,7 +284,11 @@ func cmdCheck(args []string) int {
 							if m, _ := regexp.MatchString("^(?:"+d.Tag+")$", v.Tag); !m {
 								continue
 							}
-							rr := nativeDemo(job.Pkg, d, cf)
+							demoPkg := job.Pkg
+							if d.Pkg != "" {
+								demoPkg = d.Pkg
+							}
+							rr := nativeDemo(demoPkg, d, cf)
 							switch {
 							case rr.violated[v.Tag]:
 								how += "; native end-to-end demo on the real stack reproduces it"
